@@ -93,6 +93,13 @@ func judge(c Case, w *vkit.W) {
 		}
 		got := sentinel
 		err := got.UnmarshalBinary(data)
+		if err != nil {
+			// the error belongs to the caller as well: it is read again after the input buffer has been reused for the next case
+			describe := func() string {
+				return fmt.Sprintf("%s | length=%v version=%v date=%v", err.Error(), errors.Is(err, date.ErrInvalidLength), errors.Is(err, date.ErrUnsupportedVersion), errors.Is(err, date.ErrInvalidDate))
+			}
+			w.RetainFunc(c, "UnmarshalBinary error", describe, describe())
+		}
 		if !bytes.Equal(data, snapshot) {
 			w.Fail(c, "input-modified", fmt.Sprintf("UnmarshalBinary changed its input %v -> %v", snapshot, data))
 		}
